@@ -46,6 +46,7 @@ type params struct {
 	RealTr   int           // >0: the client uses a real *http.Transport (the fake transport is registered for the scheme "fake") with MaxConnections(RealTr)
 	Second   bool          // a second Attack call on the same Attacker while the first is running
 	SecondN  int           // hits the second attack releases (0: its pacer stops at once)
+	ZeroRate bool          // the pacer's Rate() is 0 (as the unlimited-rate pacer's is) and the client has a timeout
 	JSONTgt  bool          // Cause tgterr: the targets come from the real (instrumented) lazy JSON targeter over ErrAt lines; it runs dry at call ErrAt and stays dry
 }
 
@@ -89,6 +90,9 @@ func (p params) name() string {
 	}
 	if p.JSONTgt {
 		s += ",lazy-json-targeter"
+	}
+	if p.ZeroRate {
+		s += ",rate()=0,client-timeout"
 	}
 	if p.Second {
 		s += ",two-attacks"
@@ -217,7 +221,12 @@ func (pc pacer) Pace(elapsed time.Duration, hits uint64) (time.Duration, bool) {
 	w.pace = append(w.pace, rec)
 	return rec.Wait, rec.Stop
 }
-func (pc pacer) Rate(time.Duration) float64 { return 1 }
+func (pc pacer) Rate(time.Duration) float64 {
+	if pc.w.p.ZeroRate {
+		return 0
+	}
+	return 1
+}
 
 type fakeRT struct{ w *world }
 
@@ -274,6 +283,9 @@ func (w *world) main() {
 		c := &http.Client{Transport: fakeRT{w}}
 		if p.FailRT {
 			c.Timeout = 1 // 1ns: whatever the exchange takes is longer than the configured timeout
+		}
+		if p.ZeroRate {
+			c.Timeout = time.Hour
 		}
 		if p.RealTr > 0 {
 			// a real *http.Transport, as the default attacker has: the options that look at it take effect
@@ -1003,6 +1015,10 @@ func c03Plans() []plan {
 			}
 			if m < 3 {
 				add(params{W0: w0, M: m, N: n, Cause: "stop1", Slow: true}, ev.Pick(2, 3))
+			}
+			if n <= 3 && w0 <= 1 {
+				// what the unlimited-rate pacer reports as its rate (0), with a client timeout set (the default configuration)
+				add(params{W0: w0, M: m, N: n, Cause: "pacer", Slow: true, ZeroRate: true}, bs)
 			}
 		}
 	}
